@@ -9,6 +9,7 @@ mod fam;
 mod eng_mdd;
 mod eng_seq;
 mod eng_par;
+mod eng_viz;
 
 pub struct Args {
     pub engine: String,
@@ -46,6 +47,7 @@ fn main() {
         "seq" => eng_seq::run_seq(&a),
         "seqcut" => eng_seq::run_seqcut(&a),
         "par" => eng_par::run_par(&a),
+        "viz" => eng_viz::run_viz(&a),
         e => { eprintln!("unknown engine {}", e); std::process::exit(2); }
     }
 }
